@@ -22,9 +22,25 @@ pub fn gen_sort_knobs(rng: &mut Rng, small_regime: bool) -> SortKnobs {
     };
     let allow_realloc = rng.chance(1, 2);
     let init_cap = if allow_realloc { Some(rng.log_uniform(16, raw as u64) as usize) } else { None };
+    // the public setter is called first with a request a user may well make ("never spill" =
+    // usize::MAX, 0, values around the 10 MiB floor and around powers of two); the hook then sets
+    // the small effective budget. Derived from a side stream so the main stream is unchanged.
+    let mut side = rng.clone();
+    let threshold_req = if side.chance(1, 5) {
+        Some(match side.below(6) {
+            0 => usize::MAX,
+            1 => usize::MAX - side.urange(0, 40),
+            2 => side.urange(0, 17),
+            3 => 10 * 1024 * 1024 + side.urange(0, 32) - 16,
+            4 => (1usize << *side.pick(&[31u32, 32, 33, 62, 63])) + side.urange(0, 32) - 16,
+            _ => isize::MAX as usize + side.urange(0, 32) - 16,
+        })
+    } else {
+        None
+    };
     SortKnobs {
         raw_threshold: Some(raw),
-        threshold_req: None,
+        threshold_req,
         init_cap,
         allow_realloc,
         max_nb_chunks: *rng.pick(&[None, Some(0), Some(1), Some(2), Some(3), Some(5), Some(25)]),
